@@ -462,7 +462,18 @@ def scrub(j):
 def canon_blame(j, idx):
     s = json.dumps(scrub(j), sort_keys=True)
     s = SHA_RE.sub(lambda m: idx.get(m.group(0), "<sha>"), s)
-    return json.loads(s)
+    return sort_commit_lists(json.loads(s))
+
+
+def sort_commit_lists(j):
+    """a prompt's `commits` is a set printed in commit-id order; the ids differ from run to run (timestamps),
+    so after renaming them the list is compared as a set"""
+    if isinstance(j, dict):
+        return {k: (sorted(v) if k == "commits" and isinstance(v, list) and all(isinstance(x, str) for x in v)
+                    else sort_commit_lists(v)) for k, v in j.items()}
+    if isinstance(j, list):
+        return [sort_commit_lists(v) for v in j]
+    return j
 
 
 def diff_obs(base, other):
